@@ -356,6 +356,27 @@ def near_syzygy_epochs(planet, rng, n):
     return out
 
 
+def origin_straddle_epochs(planet, rng, years):
+    """Epochs at which the planet is within a few degrees of the Sun while the
+    Sun is within a few degrees of the March equinox: the two apparent
+    longitudes (and right ascensions) lie on either side of the 0/360 point,
+    or both just after it.  Located with the library's own heliocentric
+    vectors at the approximate instant of each year's March equinox."""
+    from pymeeus.Earth import Earth
+    cls = getattr(importlib.import_module("pymeeus." + planet), planet)
+    out = []
+    for y in years:
+        j0 = 2451623.81 + 365.2422 * (y - 2000)
+        E = hvec(Earth, j0)
+        g = sub(hvec(cls, j0), E)
+        sun = (-E[0], -E[1], -E[2])
+        el = sp.sep(g, sun)
+        if el < 6.0:
+            for _ in range(4):
+                out.append(j0 + rng.uniform(-3.0, 3.0))
+    return out
+
+
 def run(mon, spec):
     history.run_cases(mon, ID, spec)
     if not (sp.self_check() and tb.self_check()):
@@ -366,6 +387,12 @@ def run(mon, spec):
         eps = [jd_of_year(rng.uniform(-2000, 4000))
                for _ in range(spec["n"])]
         eps += near_syzygy_epochs(p, rng, max(2, spec["n"] // 12))
+        ny = 1200 if spec.get("tier") == "thorough" else 150
+        strad = origin_straddle_epochs(
+            p, rng, [rng.randrange(-1990, 3990) for _ in range(ny)])
+        for j in strad:
+            mon.cls("conjunction-at-the-march-equinox", (p, j), [p, j])
+        eps += strad
         if spec["idx"] == 0:
             eps += [jd_of_year(-2000.0), jd_of_year(4000.0), J2000,
                     2448976.5]
